@@ -229,7 +229,8 @@ impl Game {
                     if board.castle_rights(Color::White) != white_castle_rights
                         || board.castle_rights(Color::Black) != black_castle_rights
                     {
-                        reversible_moves = 0;
+                        // a lost castling right makes earlier positions unrepeatable, but it
+                        // is neither a pawn move nor a capture: the fifty-move count goes on
                         legal_moves_per_turn.clear();
                     }
                     legal_moves_per_turn
